@@ -783,6 +783,28 @@ def rule_G(ctx):
                                                  {'history': ['flat track (constant z)' if (j == 0) == first_flat and j < 2 else 'track with varying z' for j in range(3)],
                                                   'call': k_ + 1, 'kernel': [1.0, 2.0, 1.0], 'z': gz, 'expected z': wz, 'x': gx, 'expected x': wx}))
                 break
+    # features whose names are 'X' and 'Z' (a projected easting, a z-score): filter_seq on them filters the features, the coordinates stay
+    t_ = track_of(xs)
+    n_cases += 1
+    fX = [3.0 * k - 1.0 for k in range(len(xs))]
+    fZ = [0.5 * k * k for k in range(len(xs))]
+    try:
+        t_.call('createAnalyticalFeature', 'X', list(fX))
+        t_.call('createAnalyticalFeature', 'Z', list(fZ))
+        before = [(o.position.getX(), o.position.getY(), o.position.getZ()) for o in map(_ObsView, t_.fields['_Track__POINTS'])]
+        fn['__name__']('filter_seq')(t_, [1.0, 2.0, 1.0], ['X', 'Z'])
+        gX, gZ = t_.call('getAnalyticalFeature', 'X'), t_.call('getAnalyticalFeature', 'Z')
+        after = [(o.position.getX(), o.position.getY(), o.position.getZ()) for o in map(_ObsView, t_.fields['_Track__POINTS'])]
+        win3 = [0.25, 0.5, 0.25]
+        wX = [fX[i] if (i < 1 or i >= len(xs) - 1) else mean_window(fX, win3, i, True) for i in range(len(xs))]
+        wZ = [fZ[i] if (i < 1 or i >= len(xs) - 1) else mean_window(fZ, win3, i, True) for i in range(len(xs))]
+        if not (isinstance(gX, list) and isinstance(gZ, list) and all(close(a, b) for a, b in zip(gX, wX)) and all(close(a, b) for a, b in zip(gZ, wZ)) and after == before):
+            found.setdefault('seq-names', (fs, "filter_seq on features named 'X' and 'Z' smooths those features and leaves the coordinates alone",
+                                           {'kernel': [1.0, 2.0, 1.0], 'feature X': gX, 'expected': wX, 'feature Z': gZ, 'expected Z': wZ, 'coordinates changed': after != before}))
+    except orders.Unsupported as ex:
+        raise shape_error('filter_seq not interpretable: %s' % ex, fs.loc())
+    except orders.PROGRAM_ERRORS as ex:
+        found.setdefault('seq-fails', (fs, 'filter_seq does not fail', {'dimensions': ['X', 'Z'], 'exception': '%s: %s' % (type(ex).__name__, str(ex)[:160])}))
     # a height missing at the first fix only (NaN), heights elsewhere: z is still smoothed over its valid samples
     for dims in (None, ['x', 'y', 'z'], ['z']):
         t_ = track_of(xs)
@@ -833,7 +855,7 @@ def rule_G(ctx):
         ctx.ok('C15.G', ff, 'Filter: weighted mean over the valid samples of the window, boundary copy, input untouched (%d signal/kernel configurations)' % n_cases, node=ff.node)
     if not any(k in found for k in ('window', 'window-fails')):
         ctx.ok('C15.G', fk, 'sliding windows of %d built-in kernels: odd, symmetric, non-negative, sum 1' % len(kernels), node=fk.node)
-    if not any(k in found for k in ('seq', 'seq-fails', 'seq-history', 'seq-nan')):
+    if not any(k in found for k in ('seq', 'seq-fails', 'seq-history', 'seq-nan', 'seq-names')):
         ctx.ok('C15.G', fs, 'filter_seq writes the filtered coordinates into the track it is given', node=fs.node)
     ctx.extra['C15.G cases'] = n_cases
 
